@@ -54,8 +54,15 @@ class Check(PropertyCheck):
             lines.append("fcomp all")
         if rng.random() < 0.4:
             # the graph updater is one of the built-in observers the property names
-            lines.append(f"fres {rng.choice(['disjunctive', 'agent_task', 'agent_task_jobs', 'complete_agent_task'])} "
-                         f"{rng.choice([0, 1])} {rng.choice([0, 1])}")
+            b_ = rng.choice(['disjunctive', 'agent_task', 'agent_task_jobs', 'complete_agent_task'])
+            if rng.random() < 0.3:
+                # the owner of the graph pruned it before handing it over (source/sink of the disjunctive graph, the global node,
+                # some machine or job node): "fresh" means "as handed over"
+                total_ = gen.num_ops(jobs)
+                extra_ = [total_ + k for k in rng.sample(range(0, 3), rng.randint(1, 2))]
+                lines.append(f"fresx {b_} {rng.choice([0, 1])} {rng.choice([0, 1])} " + " ".join(map(str, extra_)))
+            else:
+                lines.append(f"fres {b_} {rng.choice([0, 1])} {rng.choice([0, 1])}")
         lines.append("mark setup-done")
         lines.append("fsnap")
         tr = gen.Tracker(jobs)
